@@ -31,7 +31,11 @@ ssize_t mpt_buffer_cut(MPT_STRUCT(buffer) *buf, size_t off, size_t len)
 	}
 	/* only keep data till offset */
 	if (!len) {
+		if (off > buf->_used) {
+			return MPT_ERROR(MissingData);
+		}
 		keep = off;
+		len = buf->_used - off;
 	}
 	/* dat must be in range */
 	else if ((keep = buf->_used - len) < off) {
